@@ -14,6 +14,9 @@
 (*   core/server/ntske.go   newNTSKEMsg: 8 cookies under Current()         *)
 (*   net/ntske/provider.go  Current / Get (see also KeyProvider.tla, C12)  *)
 (*   core/client/client_ip.go  one exchange per measureClockOffsetIP call  *)
+(*   core/client/client_scion.go  the same exchange over SCION/UDP          *)
+(*                          (measureClockOffsetSCION); its receive loop    *)
+(*                          has one more branch: an SCMP message           *)
 (*                                                                         *)
 (* One action per step that the network separates: the client builds and   *)
 (* sends a request (SendRequest), the datagram is lost or handled by the   *)
@@ -27,6 +30,13 @@
 (* one that arrives after the call has returned finds no socket (Stray).   *)
 (* The receive loop of measureClockOffsetIP turns down at most MaxRetries  *)
 (* unusable datagrams per call; the next one ends the call.                *)
+(* The client of a behaviour is the IP client or the SCION client (tr).    *)
+(* Both use the same fetcher and request builder; the SCION client's       *)
+(* socket may in addition be handed an SCMP message (destination           *)
+(* unreachable, echo reply, parameter problem ...: unauthenticated, anyone  *)
+(* on or off the path can send one) while its request is pending, before   *)
+(* or instead of the genuine reply (Scmp).  It is one more datagram the    *)
+(* receive loop turns down; it says nothing about the cookie that was sent.*)
 (* Probe is an authenticated request of some other NTS client of the same  *)
 (* server carrying an arbitrary number of cookie/placeholder fields.       *)
 (*                                                                         *)
@@ -58,7 +68,9 @@ CONSTANTS
   MaxEx,         \* bound on the number of requests built (model checking only)
   ProbeNs,       \* numbers of cookie/placeholder fields other clients may send
   ProbeUids,     \* lengths of the unique identifiers other clients may send (>= 32)
-  MaxOld         \* number of earlier replies the network may still deliver (model checking only)
+  MaxOld,        \* number of earlier replies the network may still deliver (model checking only)
+  Transports,    \* the clients a behaviour may be run with: subset of {"ip", "scion"}
+  ScmpTypes      \* SCMP messages the network may hand to the waiting SCION client
 
 (***************************************************************************)
 (* Wire sizes (net/nts/nts.go: extension fields are 4-byte aligned)        *)
@@ -113,15 +125,16 @@ VARIABLES
   nextId,  \* fresh cookie identities
   obs,     \* label of the step just taken
   old,     \* replies the server has sent and the network may deliver (again): [cookies, sess, ex]
-  tries    \* numRetries: datagrams the receive loop of the current call has turned down
+  tries,   \* numRetries: datagrams the receive loop of the current call has turned down
+  tr       \* the client of this behaviour: "ip" (client_ip.go) | "scion" (client_scion.go)
 
-vars == <<now, prov, pool, sess, used, seen, phase, net, rep, pre, clean, nex, nextId, obs, old, tries>>
+vars == <<now, prov, pool, sess, used, seen, phase, net, rep, pre, clean, nex, nextId, obs, old, tries, tr>>
 \* cookie identities and the history sets are renamings of each other in
 \* behaviours that agree on the rest
 view == <<now, prov, [i \in DOMAIN pool |-> <<pool[i].key, pool[i].sess>>], sess, phase,
           IF net.k = "req" THEN <<net.cookie.key, net.cookie.sess, net.p, net.bad>> ELSE <<>>,
           IF rep.k = "none" THEN <<>> ELSE <<rep.k, rep.n, rep.u, Len(rep.cookies), rep.bad, "kv" \in DOMAIN rep /\ rep.kv>>,
-          pre, clean, nex, obs, [i \in DOMAIN old |-> <<old[i].sess, old[i].ex>>], tries>>
+          pre, clean, nex, obs, [i \in DOMAIN old |-> <<old[i].sess, old[i].ex>>], tries, tr>>
 
 \* without a bound on the number of exchanges (MaxEx large) the counters and
 \* the session number are renamings as well; the state space is then finite
@@ -129,7 +142,7 @@ view == <<now, prov, [i \in DOMAIN pool |-> <<pool[i].key, pool[i].sess>>], sess
 viewU == <<now, prov, [i \in DOMAIN pool |-> <<pool[i].key, pool[i].sess = sess>>], phase,
            IF net.k = "req" THEN <<net.cookie.key, net.cookie.sess = sess, net.p, net.bad>> ELSE <<>>,
            IF rep.k = "none" THEN <<>> ELSE <<rep.k, rep.n, rep.u, Len(rep.cookies), rep.bad, "kv" \in DOMAIN rep /\ rep.kv>>,
-           pre, clean, sess > 0, obs, [i \in DOMAIN old |-> <<old[i].sess = sess, old[i].ex = nex>>], tries>>
+           pre, clean, sess > 0, obs, [i \in DOMAIN old |-> <<old[i].sess = sess, old[i].ex = nex>>], tries, tr>>
 
 NoMsg == [k |-> "none"]
 Ids(s) == {s[i].id : i \in DOMAIN s}
@@ -151,7 +164,7 @@ CurrentP(pv, t) ==
            cur |-> pv.cur + 1, gen |-> t]
   ELSE pv
 
-\* client_ip.go: const maxNumRetries = 1
+\* client_ip.go, client_scion.go: const maxNumRetries = 1
 MaxRetries == 1
 \* the network's memory: the reply to the current request and the newest MaxOld earlier ones
 Remember(r, x) ==
@@ -200,6 +213,7 @@ Init ==
   /\ obs = "init"
   /\ old = << >>
   /\ tries = 0
+  /\ tr \in Transports
 
 \* FetchData with an empty pool: NTS-KE, the server's newNTSKEMsg adds 8 cookies
 \* under Current() bound to the freshly exported session keys
@@ -214,7 +228,7 @@ Rekey ==
         /\ seen' = seen \cup Ids(cs)
         /\ nextId' = nextId + 8
   /\ obs' = "rekey"
-  /\ UNCHANGED <<now, used, phase, net, pre, clean, nex, old, tries>>
+  /\ UNCHANGED <<now, used, phase, net, pre, clean, nex, old, tries, tr>>
 
 \* FetchData (data := f.data; pop), NewRequestPacket, EncodePacket, WriteTo
 SendRequest ==
@@ -239,12 +253,12 @@ SendRequest ==
                            bad     |-> oc = "trunc"]
   /\ rep' = NoMsg
   /\ tries' = 0
-  /\ UNCHANGED <<now, prov, sess, seen, nextId, old>>
+  /\ UNCHANGED <<now, prov, sess, seen, nextId, old, tr>>
 
 LoseRequest ==
   /\ phase = "req"
   /\ phase' = "wait" /\ net' = NoMsg /\ rep' = NoMsg /\ clean' = FALSE /\ obs' = "losereq"
-  /\ UNCHANGED <<now, prov, pool, sess, used, seen, pre, nex, nextId, old, tries>>
+  /\ UNCHANGED <<now, prov, pool, sess, used, seen, pre, nex, nextId, old, tries, tr>>
 
 \* runIPServer: Decode, provider.Get(cookie key id), Decrypt, ProcessRequest;
 \* then Current() and one new cookie per field
@@ -262,12 +276,12 @@ ServerHandle ==
      ELSE /\ phase' = "wait" /\ rep' = NoMsg /\ obs' = "norep" /\ clean' = FALSE
           /\ UNCHANGED <<prov, seen, nextId, old>>
   /\ net' = NoMsg
-  /\ UNCHANGED <<now, pool, sess, used, pre, nex, tries>>
+  /\ UNCHANGED <<now, pool, sess, used, pre, nex, tries, tr>>
 
 LoseResponse ==
   /\ phase = "resp"
   /\ phase' = "wait" /\ rep' = NoMsg /\ clean' = FALSE /\ obs' = "loseresp"
-  /\ UNCHANGED <<now, prov, pool, sess, used, seen, net, pre, nex, nextId, old, tries>>
+  /\ UNCHANGED <<now, prov, pool, sess, used, seen, net, pre, nex, nextId, old, tries, tr>>
 
 \* ProcessResponse: unique id, authenticate, StoreCookie for every cookie.
 \* A reply that was cut off does not authenticate: the client keeps waiting.
@@ -282,7 +296,7 @@ ClientReceive ==
           /\ pool' = pool \o rep.cookies
           /\ tries' = 0
   /\ rep' = NoMsg
-  /\ UNCHANGED <<now, prov, sess, used, seen, net, pre, nex, nextId, old>>
+  /\ UNCHANGED <<now, prov, sess, used, seen, net, pre, nex, nextId, old, tr>>
 
 \* The network hands the waiting client an earlier reply of the server (old[i]).
 \* ProcessResponse: it answers another request - the unique identifier is not the
@@ -297,7 +311,24 @@ Replay(i) ==
      THEN /\ tries' = tries + 1 /\ obs' = "stale"
           /\ UNCHANGED <<phase, rep, clean>>
      ELSE /\ tries' = 0 /\ obs' = "fail" /\ phase' = "idle" /\ rep' = NoMsg /\ clean' = FALSE
-  /\ UNCHANGED <<now, prov, pool, sess, used, seen, net, pre, nex, nextId, old>>
+  /\ UNCHANGED <<now, prov, pool, sess, used, seen, net, pre, nex, nextId, old, tr>>
+
+\* The network hands the waiting SCION client an SCMP message of type t
+\* (client_scion.go, receive loop, "unexpected SCMP message type": logged and
+\* turned down like any other unusable datagram - numRetries, then the call
+\* ends).  SCMP messages carry no authentication and may concern any hop or a
+\* packet the client never sent: the request's cookie has been on the wire and
+\* stays used, the pool is what it was, and the genuine reply, if it follows
+\* within the retry, completes the exchange as usual.
+Scmp(t) ==
+  /\ tr = "scion"
+  /\ t \in ScmpTypes
+  /\ phase \in {"resp", "wait"}
+  /\ IF tries < MaxRetries
+     THEN /\ tries' = tries + 1 /\ obs' = "scmp"
+          /\ UNCHANGED <<phase, rep, clean>>
+     ELSE /\ tries' = 0 /\ obs' = "fail" /\ phase' = "idle" /\ rep' = NoMsg /\ clean' = FALSE
+  /\ UNCHANGED <<now, prov, pool, sess, used, seen, net, pre, nex, nextId, old, tr>>
 
 \* ... or delivers it when no call is in progress: the socket of the exchange
 \* it belonged to is closed, the datagram is discarded by the client's host
@@ -305,17 +336,17 @@ Stray(i) ==
   /\ phase = "idle"
   /\ i \in DOMAIN old
   /\ obs' = "stray" /\ rep' = NoMsg
-  /\ UNCHANGED <<now, prov, pool, sess, used, seen, phase, net, pre, clean, nex, nextId, old, tries>>
+  /\ UNCHANGED <<now, prov, pool, sess, used, seen, phase, net, pre, clean, nex, nextId, old, tries, tr>>
 
 Timeout ==
   /\ phase = "wait"
   /\ phase' = "idle" /\ obs' = "fail" /\ rep' = NoMsg /\ tries' = 0
-  /\ UNCHANGED <<now, prov, pool, sess, used, seen, net, pre, clean, nex, nextId, old>>
+  /\ UNCHANGED <<now, prov, pool, sess, used, seen, net, pre, clean, nex, nextId, old, tr>>
 
 Tick(d) ==
   /\ phase = "idle" /\ d > 0 /\ now + d <= Horizon
   /\ now' = now + d /\ rep' = NoMsg /\ obs' = "tick"
-  /\ UNCHANGED <<prov, pool, sess, used, seen, phase, net, pre, clean, nex, nextId, old, tries>>
+  /\ UNCHANGED <<prov, pool, sess, used, seen, phase, net, pre, clean, nex, nextId, old, tries, tr>>
 
 \* (The authenticated branch exists twice, in server_ip.go and in server_scion.go;
 \* Probe stands for a request to either listener - the recorded probes name the
@@ -346,12 +377,13 @@ Probe(n, u, k) ==
              /\ UNCHANGED <<seen, nextId>>
   /\ nex' = nex + 1
   /\ obs' = "probe"
-  /\ UNCHANGED <<now, pool, sess, used, phase, net, pre, clean, old, tries>>
+  /\ UNCHANGED <<now, pool, sess, used, phase, net, pre, clean, old, tries, tr>>
 
 Next ==
   \/ Rekey \/ SendRequest \/ LoseRequest \/ ServerHandle \/ LoseResponse
   \/ ClientReceive \/ Timeout
   \/ \E i \in DOMAIN old : Replay(i) \/ Stray(i)
+  \/ \E t \in ScmpTypes : Scmp(t)
   \/ \E d \in Ticks : Tick(d)
   \/ \E n \in ProbeNs, u \in ProbeUids, k \in {0} \cup DOMAIN prov.keys : Probe(n, u, k)
 
